@@ -8,7 +8,7 @@ MANIFEST = dict(
    note="Trusted: Lean kernel; axioms propext/Classical.choice/Quot.sound only; the translator (regexp/syntax AST -> Lean term; validated by comparing Re.accepts with Go regexp on every generated case); the specification automata in Model/FormatSpec.lean as the reading of the documented formats; Go regexp semantics as the reading of a JSON-Schema pattern. Parser-based validators (net.ParseCIDR/netip, time.Parse) are modelled by hand transcription validated on generated cases only. IPv6 family: RFC 4291 recogniser vs the library on generated cases only.",
    design="DESIGN.md §5 C20; notes/C20.md")
 
-MODULES = ["Gozod.Proofs.C20", "Gozod.Proofs.C20DateTime"]
+MODULES = ["Gozod.Proofs.C20", "Gozod.Proofs.C20DateTime", "Gozod.Proofs.C20Parsers"]
 REGEX_FORMATS = ["ipv4", "hex", "e164", "mac", "macdash", "base64", "uuid", "uuidv4", "uuidv6", "uuidv7", "guid"]
 OPTION_JOBS = ["macdot"] + ["tmo_" + p for p in "nm01239"]
 DTO = ["%s_%s_%s" % (p, o, l) for p in "nm01239" for o in "01" for l in "01"]   # IsoDateTime(options): precision x offset x local
@@ -27,7 +27,10 @@ THEOREMS = (["Gozod.C20.bisim_sound", "Gozod.C20.bisim_sound_full"]
     + ["Gozod.Re.accepts_iff_lang", "Gozod.Re.accepts_seq", "Gozod.Re.accepts_alt", "Gozod.C20.date_length", "Gozod.C20.dateThen_split",
        "Gozod.C20.accepts_date_seq", "Gozod.C20.datetime_of_tail", "Gozod.C20.c20_dto_of"]
     + ["Gozod.C20.c20_dto_%s" % x for x in DTO] + ["Gozod.C20.c20_dto_%s_pattern" % x for x in DTO]
-    + ["Gozod.C20.c20_isodatetime_pattern_optsec_full", "Gozod.C20.isoDateTime_quot", "Gozod.C20.c20_isodatetime_pattern_partial_full"])
+    + ["Gozod.C20.c20_isodatetime_pattern_optsec_full", "Gozod.C20.isoDateTime_quot", "Gozod.C20.c20_isodatetime_pattern_partial_full"]
+    # validator side: time.Parse("2006-01-02") transcription = the calendar-date definition; UUID("vN") = two checks
+    + ["Gozod.C20.goDate10", "Gozod.C20.isoDate10", "Gozod.C20.goDate_length", "Gozod.C20.c20_isodate", "Gozod.C20.run_incl", "Gozod.C20.uuid_incl"]
+    + ["Gozod.C20.c20_uuidp%s%s" % (v, p) for v in "467" for p in ("", "_pattern")])
 
 # certificate job -> format name of the correspondence
 JOB_FORMAT = {"isodatetime_optsec": "isodatetime", "isodatetime_partial": "isodatetime", "base64url_partial": "base64url",
